@@ -259,6 +259,16 @@ func genK3(t *rapid.T, maxN int) []string {
 	tailMax := rapid.IntRange(0, 3).Draw(t, "tailmax")
 	seed := rapid.Uint64().Draw(t, "seed")
 	pre := rapid.SliceOfN(rapid.Byte(), 0, 2).Draw(t, "pre")
+	// multi-byte edges between the first-level byte and the wide second level (a
+	// wide node that is not the root and carries a prefix), optionally a wide
+	// third level; "leafOnly": the other first-level children are single keys, so
+	// that every inner node near the top is wide
+	edgeMax := rapid.SampledFrom([]int{0, 0, 1, 2, 3, 8}).Draw(t, "edgemax")
+	leafOnly := rapid.Bool().Draw(t, "leafonly")
+	third := rapid.IntRange(0, 2).Draw(t, "third")
+	if edgeMax > 0 && second == 0 {
+		second = 1 + rapid.IntRange(0, 11).Draw(t, "second2")
+	}
 	rng := &sm64{seed}
 	perm := append([]byte{}, fullAlpha...)
 	for i := len(perm) - 1; i > 0; i-- {
@@ -290,12 +300,28 @@ func genK3(t *rapid.T, maxN int) []string {
 	for i := 0; i < fan && len(set) < maxN; i++ {
 		k := string(pre) + string([]byte{perm[i]})
 		if i < second {
+			if edgeMax > 0 {
+				e := make([]byte, rng.intn(edgeMax+1))
+				for x := range e {
+					e[x] = byte(rng.next())
+				}
+				k += string(e)
+			}
 			for j := 0; j < fan2 && len(set) < maxN; j++ {
-				set[k+string([]byte{perm[(j*7+i)%256]})+tail()] = struct{}{}
+				k2 := k + string([]byte{perm[(j*7+i)%256]})
+				if j < third && edgeMax > 0 {
+					// a wide third level behind another edge
+					e := strings.Repeat(string([]byte{byte(rng.next())}), rng.intn(edgeMax+1))
+					for x := 0; x < 12 && len(set) < maxN; x++ {
+						set[k2+e+string([]byte{perm[(x*5+j)%256]})+tail()] = struct{}{}
+					}
+					continue
+				}
+				set[k2+tail()] = struct{}{}
 			}
 		} else {
 			set[k+tail()] = struct{}{}
-			if rng.intn(4) == 0 {
+			if rng.intn(4) == 0 && !leafOnly {
 				set[k+tail()] = struct{}{}
 			}
 		}
@@ -759,6 +785,44 @@ func genVals(t *rapid.T, n int, enc string, forceRuns bool) ([]Hex, string) {
 			}
 		}
 		return vals, "floatedge"
+	}
+	if s.name == "OptU16" && n > 0 && rapid.Bool().Draw(t, "presencepattern") {
+		// optional values: WHERE the absent ones sit (whole bitmap words without a
+		// present value, at the head, at the tail, in the middle)
+		present := func(i int) Hex {
+			id := base + uint64(i)
+			return Hex([]byte{byte(1 + 3*(id%85)), byte(id / 85)})
+		}
+		pat := []string{"tail-absent", "head-present", "head-absent", "one-present", "blocks"}[pickU(t, "presence", 5)]
+		k := []int{1, 2, 63, 64, 65, n / 2, n - 1}[pickU(t, "presencek", 7)]
+		if k > n {
+			k = n
+		}
+		if k < 0 {
+			k = 0
+		}
+		one := rng.intn(n)
+		for i := 0; i < n; i++ {
+			var here bool
+			switch pat {
+			case "tail-absent":
+				here = i < n-k
+			case "head-present":
+				here = i < k
+			case "head-absent":
+				here = i >= k
+			case "one-present":
+				here = i == one
+			default:
+				here = (i/64)%2 == int(base%2)
+			}
+			if here {
+				vals[i] = present(i)
+			} else {
+				vals[i] = Hex("")
+			}
+		}
+		return vals, "presence/" + pat
 	}
 	for i := 0; i < n; i++ {
 		switch mode {
